@@ -403,6 +403,15 @@ func structsEqual(x, y any) (err error) {
 		ytf := yrt.Field(i)
 		yvf := yrv.Field(i)
 
+		if !xtf.IsExported() || !ytf.IsExported() {
+			// private fields are not compared
+			if xtf.IsExported() != ytf.IsExported() {
+				err = errorf("Struct field visibility mismatch")
+				return
+			}
+			continue
+		}
+
 		xn := xtf.Name
 		yn := ytf.Name
 
